@@ -251,7 +251,8 @@ def run_case(case, ctx):
     root = ctx.scratch / f"c06-{case['k']}"
     try:
         trees.build(recipe, root, ctx.state["styles"])
-        r = run_cli(["--no-multiprocessing", "--root", str(root), "lint", "--json"], cwd=str(root))
+        cwd, gargs = trees.place_lint(rng_for(ctx.seed, "c06place", case["k"]), root)
+        r = run_cli(["--no-multiprocessing"] + gargs + ["lint", "--json"], cwd=cwd)
         res.n = len(cells)
         if r.escaped:
             res.violation("escaped-exception", f"{r.exc_type} left main()", tb=r.exc_tb, cells=cells[:10])
@@ -261,7 +262,7 @@ def run_case(case, ctx):
         except ValueError:
             res.violation("lint-json-unparseable", "no JSON", **r.brief())
             return res.out()
-        obs = trees.lint_observed(data, root)
+        obs = trees.lint_observed(data, root, cwd)
         for c in COLLS:
             e, o = exp[c], obs[c]
             if e == o:
